@@ -26,6 +26,7 @@ struct val_s {
 	int kind;
 	int64_t inst;	/* seconds; for times the second of the day */
 	int mil;	/* text carries 24:00:00 */
+	int di;		/* index of the seam day the value comes from (-1: a time) */
 };
 #define MAXVAL	1024
 static struct val_s vals[MAXVAL];
@@ -47,6 +48,8 @@ static const int days[][3] = {
 static const int tods[] = {0, 1, 3599, 3600, 43200, 86399, 86400};
 #define NTODS		((int)(sizeof(tods) / sizeof(*tods)))
 
+static int cur_di = -1;
+
 static void
 add_val(int kind, int64_t inst, int mil, const char *fmt, ...)
 {
@@ -61,6 +64,7 @@ add_val(int kind, int64_t inst, int mil, const char *fmt, ...)
 	vals[nvals].kind = kind;
 	vals[nvals].inst = inst;
 	vals[nvals].mil = mil;
+	vals[nvals].di = cur_di;
 	nvals++;
 }
 
@@ -74,6 +78,7 @@ mk_vals(int thorough)
 		int rd = rc_rd(days[i][0], days[i][1], days[i][2]);
 		const struct rc_day *p = rc_get(rd);
 		int64_t ins = (int64_t)p->unixd * 86400;
+		cur_di = i;
 		add_val(K_YMD, ins, 0, "%04d-%02d-%02d", p->y, p->m, p->d);
 		add_val(K_YWD, ins, 0, "%04d-W%02d-%d", p->isoy, p->isow, p->wd);
 		add_val(K_YMCW, ins, 0, "%04d-%02d-%02d-%02d", p->y, p->m, p->mcnt, p->wd);
@@ -96,6 +101,7 @@ mk_vals(int thorough)
 			}
 		}
 	}
+	cur_di = -1;
 	for (int t = 0; t < NTODS; t++) {
 		int s = tods[t];
 		if (s < 86400) {
@@ -314,7 +320,7 @@ main(int argc, char *argv[])
 		"non-trivial = pair whose texts are ordered differently as strings than as instants");
 	ex_meta("bound", "%d values (%s) from %d seam days; all %d ordered pairs", nvals, kinds, ex.thorough ? NDAY : NDAY_QUICK, nvals * nvals);
 	ex_meta("binding", "the dtest binary of the same build as a process: %s; its exit status must equal the one main() gave in the harness",
-		ex.thorough ? "every same-kind pair x every operator" : "every same-kind pair with --cmp");
+		ex.thorough ? "every same-kind pair with --cmp, and with every operator when the two values come from the same or adjacent seam days of the list (or are times)" : "every same-kind pair with --cmp");
 
 	for (int i = 0; i < nvals && !ex_expired(); i++) {
 		if (!ex_mine((uint64_t)i)) {
@@ -322,7 +328,8 @@ main(int argc, char *argv[])
 		}
 		++*c_states;
 		for (int j = 0; j < nvals; j++) {
-			judge(i, j, ex.thorough, 0);
+			/* thorough: the binary runs all operators on pairs from the same or adjacent seam days (and on times) */
+			judge(i, j, ex.thorough && abs(vals[i].di - vals[j].di) <= 1, 0);
 		}
 		++*c_traces;
 		ex_sample("dtest %s OP each of %d values", vals[i].text, nvals);
